@@ -131,7 +131,10 @@ func init() {
 					ref = e
 					continue
 				}
-				if a, b := strings.Join(ref.Results, "\n"), strings.Join(e.Results, "\n"); a != b {
+				// (results are compared with the model under every schedule; the textual comparison ACROSS schedules includes
+				// enumeration orders, which follow the seed - not meaningful for maps transferred from the temporary address, F6)
+				f6 := e.Stats.Has("map_transferred_from_temp_address") && !cs.Cfg.AllowF6
+				if a, b := strings.Join(ref.Results, "\n"), strings.Join(e.Results, "\n"); a != b && !f6 {
 					return first, fmt.Errorf("schedule %q: operation results differ from schedule %q:\n%s\n---\n%s", variantName[v], variantName[0], a, b)
 				}
 				if e.Stats.Has("map_transferred_from_temp_address") && !cs.Cfg.AllowF6 {
